@@ -346,6 +346,7 @@ def check(case, cc):
         cc.cls('layout:decoration-before-~V', info['before_first_section'] > 0)
         cc.cls('layout:no-final-newline', not layout.get('final_newline', True))
         cc.cls('layout:aligned-columns', bool(layout.get('aligned')))
+        cc.cls('layout:line-longer-than-8192', max(layout['pads']) > 8000)
         cc.cls('wrapped-single-curve', wrap and ncurves == 1)
         if wrap and ncurves >= 3 and nframes >= 2 and info['comment_in_data'] > 0 and colon_value:
             nt = True
